@@ -426,6 +426,40 @@ fn check_units(ch: &mut Choices, cx: &mut Ctx) -> R {
             fail!("c18/write/applied-differs-from-direct", "section {}: lengths {} / {}, first difference at {:#x}: applied {:02x?} direct {:02x?}; relocations near: {:?}", name, got.len(), bytes.len(), at, &got[at.saturating_sub(4)..(at + 12).min(got.len())], &bytes[at.saturating_sub(4)..(at + 12).min(bytes.len())], relocs.get(name).map(|rs| rs.iter().filter(|r| r.offset + 16 > at && r.offset < at + 16).collect::<Vec<_>>()));
         }
     }
+    // references to the macro sections (which gimli does not write itself): each is recorded against the section its
+    // kind names - .debug_macinfo for a macinfo reference, .debug_macro for a macro reference - whatever the version
+    {
+        let mut want_macinfo: Vec<i64> = Vec::new();
+        let mut want_macro: Vec<i64> = Vec::new();
+        for u in &m.units {
+            for e in u.entries.iter().filter(|e| !e.never_added) {
+                // (an attribute set twice keeps its last value)
+                let mut last: BTreeMap<u16, &wmodel::WVal> = BTreeMap::new();
+                for (n, v) in &e.attrs {
+                    last.insert(*n, v);
+                }
+                for v in last.values() {
+                    match v {
+                        wmodel::WVal::DebugMacinfoRef(o) => want_macinfo.push(*o as i64),
+                        wmodel::WVal::DebugMacroRef(o) => want_macro.push(*o as i64),
+                        _ => {}
+                    }
+                }
+            }
+        }
+        let got = |id: gimli::SectionId| -> Vec<i64> {
+            let mut v: Vec<i64> = relocs.get(".debug_info").map(|rs| rs.iter().filter(|r| r.target == w::RelocationTarget::Section(id)).map(|r| r.addend).collect()).unwrap_or_default();
+            v.sort();
+            v
+        };
+        want_macinfo.sort();
+        want_macro.sort();
+        ensure_eq!(got(gimli::SectionId::DebugMacinfo), want_macinfo, "c18/write/macinfo-reference-targets", "addends of the relocations recorded against .debug_macinfo vs the macinfo references requested");
+        ensure_eq!(got(gimli::SectionId::DebugMacro), want_macro, "c18/write/macro-reference-targets", "addends of the relocations recorded against .debug_macro vs the macro references requested");
+        if !want_macinfo.is_empty() || !want_macro.is_empty() {
+            cx.label("units: macro section references");
+        }
+    }
     // every relocation lies inside its section and fields do not overlap
     for (name, rs) in &relocs {
         let len = rmap[name].len();
@@ -516,6 +550,105 @@ fn check_units(ch: &mut Choices, cx: &mut Ctx) -> R {
                 Err(e) => fail!("c18/write/linked-unreadable", "{}", e),
             }
         }
+    }
+    Ok(())
+}
+
+// ---------------------------------------------------------------------------
+// line programs that did not come from gimli's writer (reading side only)
+// ---------------------------------------------------------------------------
+
+/// An assembler-built line program (the C04 generator: any header, operands of DW_LNE_set_address that are longer than
+/// the address size, tombstones, several sequences) with a generated relocation on the address of some of the
+/// DW_LNE_set_address operations: the rows read through the relocating reader from a section whose relocated fields
+/// hold garbage equal the rows read from the section with the relocations applied.
+fn check_line_reader(ch: &mut Choices, cx: &mut Ctx) -> R {
+    use crate::linemodel::{build_line, decode_lop, encode_lop, LOp};
+    cx.label("line programs (reading side, assembler-built)");
+    let big = ch.bool();
+    let endian = if big { RunTimeEndian::Big } else { RunTimeEndian::Little };
+    let h = crate::c04::gen_header(ch);
+    let ops = if ch.chance(170) { crate::c04::gen_program(ch, &h) } else { crate::c04::gen_tombstone_program(ch, &h) };
+    let mut pw = crate::enc::W::new(big);
+    for op in &ops {
+        encode_lop(op, &h, &mut pw);
+    }
+    let (bytes, prog_at) = build_line(&h, big, &pw.buf);
+    let a = h.address_size;
+    let m = crate::enc::mask(a);
+    let mut rs: Vec<w::Relocation> = Vec::new();
+    let mut table: BTreeMap<usize, u64> = BTreeMap::new();
+    let mut pos = 0usize;
+    let mut long_operand = false;
+    while pos < pw.buf.len() {
+        match decode_lop(&pw.buf, pos, &h, big) {
+            Ok((op, len)) => {
+                if let LOp::SetAddress(_, extra) = op {
+                    let at = prog_at + pos + len - extra - a as usize;
+                    if ch.chance(190) {
+                        let symbol = ch.below(SYMBOL_ADDRESSES.len());
+                        let addend = (ch.below(0x400) * 4) as i64;
+                        let r = w::Relocation { offset: at, size: a, target: w::RelocationTarget::Symbol(symbol), addend, eh_pe: None };
+                        table.insert(at, reloc_value(&r) & m);
+                        rs.push(r);
+                        long_operand |= extra > 0;
+                    }
+                }
+                pos += len;
+            }
+            Err(_) => break,
+        }
+    }
+    if rs.is_empty() {
+        return Ok(());
+    }
+    if long_operand {
+        cx.label("line programs: relocated set_address with an operand longer than the address size");
+    }
+    let mut map = Map::new();
+    map.insert(".debug_line", bytes);
+    let mut relocs = Relocs::new();
+    relocs.insert(".debug_line", rs);
+    let applied = apply(&map, &relocs, big);
+    let scrambled = scramble(&map, &relocs, ch.below(3) as u8, big);
+    cx.sample_with(|| format!("{} v{} addr{} {} operations, relocated set_address operands at {:x?}", if big { "BE" } else { "LE" }, h.version, a, ops.len(), table.keys().collect::<Vec<_>>()));
+    fn rows_of<R: Reader<Offset = usize>>(dl: gimli::DebugLine<R>, a: u8) -> Vec<String> {
+        let mut out = Vec::new();
+        match dl.program(gimli::DebugLineOffset(0), a, None, None) {
+            Ok(p) => {
+                let mut rows = p.rows();
+                loop {
+                    match rows.next_row() {
+                        Ok(Some((_, r))) => out.push(format!("{:#x}.{} line {:?} col {:?} file {} end {}", r.address(), r.op_index(), r.line().map(|l| l.get()), r.column(), r.file_index(), r.end_sequence())),
+                        Ok(None) => break,
+                        Err(e) => {
+                            out.push(format!("error {:?}", e));
+                            break;
+                        }
+                    }
+                    if out.len() > 4000 {
+                        break;
+                    }
+                }
+            }
+            Err(e) => out.push(format!("header error {:?}", e)),
+        }
+        out
+    }
+    let fq = std::cell::RefCell::new(std::collections::BTreeSet::new());
+    let got = rows_of(gimli::DebugLine::from(gimli::RelocateReader::new(EndianSlice::new(&scrambled[".debug_line"], endian), Table(&table, &fq))), a);
+    let want = rows_of(gimli::DebugLine::new(&applied[".debug_line"], endian), a);
+    if got != want {
+        fail!("c18/read/line/relocating-reader-differs", "{}", first_diff(&got, &want));
+    }
+    // every relocated operand was read through the relocatable primitive (unless an error ended the run before it)
+    if !want.iter().any(|l| l.contains("error")) {
+        for at in table.keys() {
+            ensure!(fq.borrow().contains(at), "c18/read/line/address-not-relocated", "the DW_LNE_set_address operand at {:#x} was not read through Reader::read_address", at);
+        }
+    }
+    if want.len() >= 2 {
+        cx.nt();
     }
     Ok(())
 }
@@ -687,6 +820,8 @@ impl Prop for C18 {
     fn run_case(&self, ch: &mut Choices, cx: &mut Ctx) -> R {
         if ch.chance(80) {
             check_frames(ch, cx)
+        } else if ch.chance(40) {
+            check_line_reader(ch, cx)
         } else {
             check_units(ch, cx)
         }
